@@ -28,6 +28,9 @@ def plan(tier, seed):
     b = []
     for cls, k in CLASSES_Q:
         b += harness.split(cls, k * mult, 50 if tier == "quick" else 200)
+    if tier == "thorough":
+        # complete enumeration of the one- and two-state games (exhaustive for that sub-space)
+        b += harness.split("G-SMALLALL", games.small_game_count(), 600)
     from . import boards_common
     b += boards_common.plan_boards(tier)
     return b
@@ -180,7 +183,7 @@ def run_batch(batch):
     for idx in range(batch["start"], batch["start"] + batch["count"]):
         EMIT_START(idx)
         rng = games.case_rng(seed, PID, cls, idx)
-        gd = games.gen_class(rng, cls)
+        gd = games.small_game(idx) if cls == "G-SMALLALL" else games.gen_class(rng, cls)
         if gd is None:
             yield {"idx": idx, "verdict": "skipped", "what": "generator gave up"}
             continue
